@@ -551,6 +551,27 @@ def capacity_and_forks(ctx):
             ob12.refute("b-response-dropped", "the B response is pushed into resp_buffer (and the ID popped) under %s without looking at resp_buffer.sink.ready, and neither the pop of "
                         "the write data nor the issue of write commands depends on it: once buffer_depth responses wait for BREADY every further completed burst loses its "
                         "response" % sorted(v0.guard_keys(push[0], False)), push[0].loc)
+    # every burst whose ID sits in the ID FIFO owes a response: the response FIFO holds at least as many entries as the ID FIFO
+    fifo_ = {str(o): o for o in v0.d.objs if o.cls == "SyncFIFO" and str(o) in ("resp_buffer", "id_buffer")}
+    if len(fifo_) == 2:
+        dep_ = {n_: (o.args[1] if len(o.args) > 1 else o.kwargs.get("depth")) for n_, o in fifo_.items()}
+        if all(d_ is not None for d_ in dep_.values()):
+            from ..bits import ieval
+            par_ = sorted(support(dep_["id_buffer"]) | support(dep_["resp_buffer"]))
+            wit_ = None
+            try:
+                if len(par_) == 1:
+                    for n_ in (1, 2, 3, 4, 5, 8, 16, 32):
+                        a_, b_ = ieval(dep_["resp_buffer"], {par_[0]: n_}), ieval(dep_["id_buffer"], {par_[0]: n_})
+                        if a_ < b_:
+                            wit_ = (n_, a_, b_)
+                            break
+            except Exception:
+                wit_ = None
+            ob12.instance("response FIFO depth vs ID FIFO depth", {"resp_buffer": key(dep_["resp_buffer"]), "id_buffer": key(dep_["id_buffer"]), "witness": wit_})
+            if wit_:
+                ob12.refute("resp-fifo-shallow", "resp_buffer holds %s entries, id_buffer %s: for %s = %d only %d responses can wait for BREADY while %d bursts can be complete - "
+                            "the others lose their response" % (key(dep_["resp_buffer"]), key(dep_["id_buffer"]), par_[0], wit_[0], wit_[1], wit_[2]), fifo_["resp_buffer"].loc)
     w = wview(ctx, True)
     fs = w.fsms("")
     if not ob11.need(len(fs) == 1, "RMW FSM not found"):
